@@ -237,7 +237,7 @@ class ModuleEval:
             return bv
         if t == "nc":
             raise ModelError("no-connect used inside an expression")
-        if t in ("orphan", "foreign", "orphan_bun", "foreign_bun", "pref_orphan", "pref_foreign", "evicted", "pref_evicted"):
+        if t in ("orphan", "foreign", "orphan_bun", "foreign_bun", "pref_orphan", "pref_foreign", "evicted", "pref_evicted", "child_slice"):
             raise ModelError("object owned by another module or by none (%s)" % t)
         raise ModelError("unknown expression %r" % (t,))
 
